@@ -119,12 +119,14 @@ CHECKS = {
          "own replies, no loss/duplication and completes (liveness); a missing lock or a lock held only around send is rejected. "
          "ThreadsImplMC is the implementation-shaped model (lock, connect check/open, send, receive, dropped transmission -> back-off -> "
          "retransmission, failing transport -> close -> reconnect) and rejects connect outside the lock, a lock released during the "
-         "back-off, a lock wait that times out and a lock re-created by close(). Real "
+         "back-off, a lock wait that times out and a lock re-created by close(); the recorded TCP executions (lock / connect / send / unlock / "
+         "done events) are validated as behaviours of that model (ThreadsImplTrace; a rejection triggers a larger schedule search, see "
+         "DESIGN.md 9.8). Real "
          "threads run on one real ModbusTcpClient under a deterministic scheduler (pre-emption at connect/send/select/recv/virtual sleep "
          "and every lock operation, replies of different lengths and latencies): every placement of one pre-emption per thread plus seeded "
          "random and strided schedules; TLC checks Mutex / OwnReply / NoLoss / NoDup / NoDeadlock on each recorded trace, and the same "
          "schedules with a no-op lock must be rejected.", "4 C15",
-         "TLC model checking over schedules (ThreadsMC) + TLC trace validation (ThreadsTrace) of scheduled real threads"),
+         "TLC model checking over schedules (ThreadsMC, ThreadsImplMC) + TLC trace validation (ThreadsTrace monitors, ThreadsImplTrace refinement) of scheduled real threads"),
  "C16": ("AsyncClient", "model_checking",
          "AsyncClientMC: all histories of up to 5 requests with a transaction-id space of 4 (wrap and collisions reachable), replies in "
          "any order, duplicates, unsolicited replies, loss at every point: fires-once, tid match, distinct outstanding ids, loss fails "
